@@ -56,7 +56,7 @@ def strategy_(draw, thorough):
         case = draw(datasets.partitioned(thorough=thorough))
     else:
         case = draw(plans.flat_plan(thorough=False, allow={"max_index_width": 16, "delta": False, "rle_bool": False}, type_keys=FOREIGN_KEYS))
-        meta = draw(st.sampled_from(["none", "none", "pandas", "pandas_nullable", "pandas_range_index"]))
+        meta = draw(st.sampled_from(["none", "none", "pandas", "pandas_nullable", "pandas_range_index", "pandas_categorical"]))
         case["pandas_meta"] = meta
     case["src"] = src
     case["read"] = {"pandas_nulls": draw(st.booleans()), "index": draw(st.sampled_from(["default", "default", False])),
@@ -132,7 +132,13 @@ def _foreign_bytes(case):
                 # (an int/bool column that holds nulls can only have come from a pandas extension dtype)
                 # arrow records the pandas extension dtype in numpy_type
                 nt = {"bool": "boolean"}.get(c["kind"], ("UInt" if c["kind"][0] == "u" else "Int") + c["kind"][1:])
-            cols.append({"name": c["name"], "field_name": c["name"], "pandas_type": pt, "numpy_type": nt, "metadata": None})
+            cmeta = None
+            if kind == "pandas_categorical" and c["kind"] == "text":
+                # what pyarrow records for a pandas categorical of strings; whether a read can deliver it as such depends
+                # on every chunk of the column being dictionary-encoded throughout
+                vals = {v for rg in plan["row_groups"] for v in rg["data"].get(c["name"], []) if v is not None}
+                pt, nt, cmeta = "categorical", "int8", {"num_categories": max(1, len(vals)), "ordered": False}
+            cols.append({"name": c["name"], "field_name": c["name"], "pandas_type": pt, "numpy_type": nt, "metadata": cmeta})
         n = sum(len(next(iter(rg["data"].values()))) if rg["data"] else 0 for rg in plan["row_groups"])
         idx = [{"kind": "range", "name": None, "start": 0, "stop": n, "step": 1}] if kind == "pandas_range_index" else []
         md = {"index_columns": idx, "column_indexes": [{"name": None, "field_name": None, "pandas_type": "unicode", "numpy_type": "object",
